@@ -4,8 +4,8 @@ Models: lean/HydroVerif/Model/C07.lean, Model/C07Kernel.lean (c_coord2cell as wr
 lemmas: Lemmas/C07Grid.lean, Lemmas/C07Coord.lean, Lemmas/C07Kernel.lean;
 theorems: lean/HydroVerif/Props/C07.lean.
 Correspondence (Float instance of the model vs the real code through the Python API on the freshly built
-extension; cell numbers, rows/columns, neighbours and error kinds exactly, coordinates bit-equal or within 2 ulp —
-the unchanged tree is bit-equal, the count of non-bit-equal replies is in the evidence): `Grid.cell2rowcol`, `Grid.neighbours`, `Grid.cell2coord`, `Grid.coord2cell`,
+extension; cell numbers, rows/columns, neighbours and error kinds exactly, coordinates bit-equal or within the coordinate budget = max(1e-9 cell sizes, 16 ulp of the largest coordinate of
+the extent) — the unchanged tree is bit-equal, the count of non-bit-equal replies is in the evidence): `Grid.cell2rowcol`, `Grid.neighbours`, `Grid.cell2coord`, `Grid.coord2cell`,
 `Grid.xvalues / yvalues / xlim / ylim`, and the raw helper `getnxy` (ctypes, any sign of its arguments: the
 integer core shared with the C06/C11/C16 models). The exact (`Rat`) instance of the model — the one the theorems are
 about — is compared with the code on every point / cell inside the property's conditioning region.
@@ -193,12 +193,16 @@ class Exact:
         return (self.xll + self.csz * F(2 * col + 1, 2),
                 self.yll + self.csz * F(2 * (self.nrows - 1 - row) + 1, 2))
 
-    def tol(self, c):
-        """rounding budget of xll + csz*(k+0.5): three roundings, each half an ulp of a term bounded below"""
-        row, col = divmod(c, self.ncols)
-        tx = abs(self.xll) + abs(self.csz) * (col + 1)
-        ty = abs(self.yll) + abs(self.csz) * (self.nrows - row)
-        return 4 * tx * F(1, 2 ** 52), 4 * ty * F(1, 2 ** 52)
+    def budget(self):
+        """accuracy the property asks of a coordinate: 1e-9 of a cell size, or 16 ulp of the largest coordinate of
+        the extent (any evaluation order of xll + csz*(k+0.5) stays within a few ulp of its largest intermediate,
+        not of the result), whichever is larger"""
+        mag = max(abs(self.xll), abs(self.yll), abs(self.xll + self.ncols * self.csz), abs(self.yll + self.nrows * self.csz))
+        return max(16 * mag * F(1, 2 ** 52), abs(self.csz) * MARGIN)
+
+    def tol(self, c=None):
+        b = self.budget()
+        return b, b
 
 
 def expected_neighbours(nrows, ncols, c):
@@ -910,17 +914,28 @@ def body(ctx):
             ctx.finding("api/exception", "a geometry function raised on a request inside the property's domain",
                         {"history_ops": hist, "error": repr(e)[:300]})
 
-    # ---- correspondence: Float instance; integers exact, coordinates bit-equal or within 2 ulp (+ - x / kernels)
+    # ---- correspondence: Float instance; integers exact, coordinates bit-equal or within the coordinate budget
     import re
 
-    def close_floats(a, b):
+    def close_floats(a, b, geom):
+        """same text up to the float tokens, and every float within the coordinate budget of the geometry"""
         ta, tb = re.findall(r"[0-9a-f]{16}|nan", a), re.findall(r"[0-9a-f]{16}|nan", b)
-        return (len(ta) == len(tb) and re.sub(r"[0-9a-f]{16}|nan", "#", a) == re.sub(r"[0-9a-f]{16}|nan", "#", b)
-                and all(u == v or (u != "nan" and v != "nan" and C.ulp_diff(C.h2f(u), C.h2f(v)) <= 2) for u, v in zip(ta, tb)))
+        if len(ta) != len(tb) or re.sub(r"[0-9a-f]{16}|nan", "#", a) != re.sub(r"[0-9a-f]{16}|nan", "#", b):
+            return False
+        bud = float(Exact(geom["nrows"], geom["ncols"], geom["xll"], geom["yll"], geom["csz"]).budget())
+        for u, v in zip(ta, tb):
+            if u == v:
+                continue
+            if u == "nan" or v == "nan":
+                return False
+            fu, fv = C.h2f(u), C.h2f(v)
+            if not (math.isfinite(fu) and math.isfinite(fv) and abs(fu - fv) <= bud):
+                return False
+        return True
     replies = ctx.lean.ask(st.reqs)
     for req, impl, rep, case in zip(st.reqs, st.impls, replies, st.cases):
-        if impl != rep and case.get("fn") in ("cell2coord", "axes") and close_floats(impl, rep):
-            ctx.hist["correspondence/within_2ulp_not_bit_equal"] = ctx.hist.get("correspondence/within_2ulp_not_bit_equal", 0) + 1
+        if impl != rep and case.get("fn") in ("cell2coord", "axes") and close_floats(impl, rep, case["geom"]):
+            ctx.hist["correspondence/within_budget_not_bit_equal"] = ctx.hist.get("correspondence/within_budget_not_bit_equal", 0) + 1
             rep = impl
         if impl != rep and case.get("fn") == "coord2cell":
             # narrow the disagreement to the first differing point
